@@ -1414,6 +1414,57 @@ func c20Directed() []LCase {
 			mk(base(fr, kind))
 		}
 	}
+	// fragments through a component that is itself a reference, into members that are absent, into an operation without responses
+	sparse := func(ref string) string {
+		return `{"openapi":"3.0.3","info":{"title":"t","version":"1"},"paths":{"/b":{"get":{}},"/c":{}},` +
+			`"components":{"schemas":{"A":{"type":"object"},"C":{"$ref":"#/components/schemas/A"},"D":{"$ref":"#/components/schemas/C"},"T":{"$ref":` + fmt.Sprintf("%q", ref) + `},"0":{"$ref":` + fmt.Sprintf("%q", ref) + `}},` +
+			`"parameters":{"P":{"name":"p","in":"query"}},"responses":{"R":{"description":"d"}},"requestBodies":{"B":{"content":{}}},"headers":{"H":{}}}}`
+	}
+	for _, fr := range []string{"#/components/schemas/A/items", "#/components/schemas/A/not", "#/components/schemas/A/additionalProperties", "#/components/schemas/A/properties/x",
+		"#/components/schemas/A/allOf/0", "#/components/schemas/A/externalDocs", "#/components/schemas/A/discriminator", "#/components/schemas/A/xml", "#/components/schemas/A/default",
+		"#/components/schemas/C/additionalProperties", "#/components/schemas/C/items", "#/components/schemas/C/properties/x", "#/components/schemas/D/additionalProperties", "#/components/schemas/D/type",
+		"#/paths/~1b/get/responses/200", "#/paths/~1b/get/responses", "#/paths/~1b/get/requestBody", "#/paths/~1b/get/parameters/0", "#/paths/~1b/post", "#/paths/~1c/get", "#/paths/~1c/get/responses/200",
+		"#/paths/~1d", "#/components/parameters/P/schema", "#/components/parameters/P/content/application~1json", "#/components/responses/R/content/application~1json/schema",
+		"#/components/responses/R/headers/H", "#/components/requestBodies/B/content/application~1json/schema", "#/components/headers/H/schema", "#/servers/0", "#/tags/0", "#/externalDocs",
+		"#/security/0", "#/components/securitySchemes/S", "#/components/links/L", "#/components/callbacks/C", "#/components/examples/E"} {
+		mk(sparse(fr))
+	}
+	// every node of a complete document replaced by null (one at a time)
+	var full any
+	must(json.Unmarshal([]byte(base("#/components/schemas/A", "schema")), &full))
+	full.(map[string]any)["externalDocs"] = map[string]any{"url": "https://example.com"}
+	full.(map[string]any)["servers"] = []any{map[string]any{"url": "https://{h}.example.com", "variables": map[string]any{"h": map[string]any{"default": "a", "enum": []any{"a"}}}}}
+	comps := full.(map[string]any)["components"].(map[string]any)
+	comps["examples"] = map[string]any{"E": map[string]any{"value": 1.0}}
+	comps["links"] = map[string]any{"L": map[string]any{"operationId": "o", "parameters": map[string]any{"p": 1.0}}}
+	comps["headers"] = map[string]any{"H": map[string]any{"schema": map[string]any{"type": "string"}}}
+	comps["securitySchemes"] = map[string]any{"S": map[string]any{"type": "oauth2", "flows": map[string]any{"implicit": map[string]any{"authorizationUrl": "https://a.example", "scopes": map[string]any{"s": "d"}}}}}
+	comps["callbacks"] = map[string]any{"C": map[string]any{"{$url}": map[string]any{"post": map[string]any{"responses": map[string]any{"200": map[string]any{"description": "d"}}}}}}
+	comps["requestBodies"].(map[string]any)["B"].(map[string]any)["content"].(map[string]any)["application/json"].(map[string]any)["encoding"] = map[string]any{"a": map[string]any{"contentType": "text/plain", "headers": map[string]any{"X": map[string]any{"schema": map[string]any{"type": "string"}}}}}
+	var nullify func(v any, set func(any))
+	nullify = func(v any, set func(any)) {
+		set(nil)
+		b, _ := json.Marshal(full)
+		mk(string(b))
+		set(v)
+		switch x := v.(type) {
+		case map[string]any:
+			for _, k := range sortedKeys(x) {
+				k := k
+				nullify(x[k], func(n any) { x[k] = n })
+			}
+		case []any:
+			for i := range x {
+				i := i
+				nullify(x[i], func(n any) { x[i] = n })
+			}
+		}
+	}
+	root := full.(map[string]any)
+	for _, k := range sortedKeys(root) {
+		k := k
+		nullify(root[k], func(n any) { root[k] = n })
+	}
 	// every schema keyword with a value of every JSON shape
 	keys := []string{"type", "format", "title", "description", "enum", "default", "example", "externalDocs", "uniqueItems", "exclusiveMinimum", "exclusiveMaximum",
 		"nullable", "readOnly", "writeOnly", "allowEmptyValue", "deprecated", "xml", "minimum", "maximum", "multipleOf", "minLength", "maxLength", "pattern",
